@@ -239,6 +239,18 @@ def run_response(case):
   filt = build(spec)
   got = filt.freq_response(w)
   ratio = check_value(got, kind, ref, eps, "freq_response(%r)" % (w,))
+  # the same filter object asked again, at another frequency and then at the first one:
+  # nothing may be remembered from an earlier call
+  w2 = (w + 0.7) % 6.0 if w != 0 else 1.3
+  try:
+    kind2, ref2, eps2 = ref_response(spec["b"], den_of(spec), w2)
+  except Reject:
+    kind2 = None
+  if kind2 == "ok":
+    check_value(filt.freq_response(w2), kind2, ref2, eps2, "second call freq_response(%r) on the same filter" % (w2,))
+    again = filt.freq_response(w)
+    if kind == "ok" and again != got:
+      raise Violation("freq_response(%r) gave %r, then %r after a call at another frequency" % (w, got, again))
   labels = flabels(spec, w)
   labels.append("nan" if kind == "nan" else ("err<=1e-3 eps" if ratio <= 1e-3 else
                                              "err<=0.1 eps" if ratio <= .1 else "err>0.1 eps"))
